@@ -5,3 +5,4 @@ import FlowCalDriver.Index
 import FlowCalDriver.Pickle
 import FlowCalDriver.Heap
 import FlowCalDriver.Gate
+import FlowCalDriver.Density
